@@ -284,8 +284,15 @@ pub fn analyse_cycles(prog: &Program) -> Cycles {
             let d = decls.iter().find(|d| d.id == b).unwrap();
             d.params.is_empty() && matches!(prog.binders[b].k, K::S(t, _) if t != Tag::Uri)
         };
+        if std::env::var("OALVERIF_DEBUG_CYCLES").is_ok() {
+            eprintln!("module {}: decls {:?}", m.file, ids.iter().map(|b| (b, &prog.binders[*b].name, &prog.binders[*b].k)).collect::<Vec<_>>());
+            eprintln!("edges {:?}", edges);
+        }
         loop {
             let comps = scc(&ids, &edges);
+            if std::env::var("OALVERIF_DEBUG_CYCLES").is_ok() {
+                eprintln!("comps {:?}", comps);
+            }
             let mut to_cut: BTreeSet<Bid> = BTreeSet::new();
             for c in comps {
                 let trivial = c.len() == 1 && !edges.contains(&(c[0], c[0]));
@@ -1091,6 +1098,7 @@ pub struct SemFacts {
     pub implicit_emitted: usize,
     /// Of those, the ones instantiated at top level (recursive declarations, `rec` under no application).
     pub implicit_emitted_top: usize,
+    pub recursive_names: Vec<String>,
 }
 
 pub fn expected(prog: &Program) -> (Expected, SemFacts) {
@@ -1100,6 +1108,7 @@ pub fn expected(prog: &Program) -> (Expected, SemFacts) {
         return (Expected::Rejected("InvalidType"), facts);
     }
     facts.recursive_decls = cycles.recursive.len();
+    facts.recursive_names = cycles.recursive.iter().map(|b| prog.binders[*b].name.clone()).collect();
     let mut sem = Sem::new(prog, cycles.recursive);
     let empty = Env::new();
     let mut rels: Vec<RelV> = Vec::new();
